@@ -1,5 +1,8 @@
 use memmap2::MmapMut;
+#[cfg(not(anydb_verif))]
 use parking_lot::RwLockReadGuard;
+#[cfg(anydb_verif)]
+use crate::verif::locks::RwLockReadGuard;
 
 use crate::{Database, Region};
 
